@@ -200,27 +200,30 @@ GossipTick(n, p) ==
     /\ UNCHANGED <<pendw, eng, ctr, store, reps, status, pend, hwsnap, faults, restarts, written, got,
                    act, seen, chg, lag, bad>>
 
-(* filterPersist on a store batch (at most one op per key).                        *)
-Ingest(n, m, reply) ==
+(* filterPersist on a store batch (at most one op per key).  `ackops` is the reply:
+   operationServer.handle reads the store right after queueing the request, i.e. before
+   (usually) or after the request went through filterPersist and the store sink.     *)
+StoreAfter(n, m) == PutStore(store[n], AccSet(eng[n], m.ops), "inf")
+AckChoices(n, m) == {Infected(n)} \cup
+    (IF AckAfter THEN {{Op(k, StoreAfter(n, m)[k]) : k \in {kk \in Key : StoreAfter(n, m)[kk].st = "inf"}}} ELSE {})
+Ingest(n, m, ackops) ==
     LET A == AccSet(eng[n], m.ops)
         R == m.ops \ A
-        st2 == PutStore(store[n], A, "inf")
-        inf2 == {Op(k, st2[k]) : k \in {kk \in Key : st2[kk].st = "inf"}}
     IN /\ eng' = [eng EXCEPT ![n] = ApplySet(@, A)]
-       /\ store' = [store EXCEPT ![n] = st2]
+       /\ store' = [store EXCEPT ![n] = StoreAfter(n, m)]
        /\ got' = [got EXCEPT ![n] = @ \cup m.ops]
-       /\ \E ackops \in (IF reply THEN {Infected(n)} \cup (IF AckAfter THEN {inf2} ELSE {}) ELSE {{}}) :
-             net' = Send(Send(Take(net, m), Msg("ack", n, m.from, ackops)), Msg("fb", n, m.from, R))
+       /\ net' = Send(Send(Take(net, m), Msg("ack", n, m.from, ackops)), Msg("fb", n, m.from, R))
        /\ Notify(n, 0, A)
 
-RecvSync(m) ==
+RecvSyncWith(m, ackops) ==
     /\ m.t = "sync" /\ status[m.to] # "down"
-    /\ Ingest(m.to, m, TRUE)
+    /\ Ingest(m.to, m, ackops)
     /\ UNCHANGED <<pendw, ctr, reps, status, pend, hwsnap, faults, restarts, written, act>>
+RecvSync(m) == \E ackops \in AckChoices(m.to, m) : RecvSyncWith(m, ackops)
 
 RecvAck(m) ==
     /\ m.t = "ack" /\ status[m.to] # "down"
-    /\ Ingest(m.to, m, FALSE)
+    /\ Ingest(m.to, m, {})
     /\ UNCHANGED <<pendw, ctr, reps, status, pend, hwsnap, faults, restarts, written, act>>
 
 Hit(n, d) == reps[n][d.k][d.ver] > Threshold
